@@ -186,6 +186,31 @@ def unroll(forest, counter=None, budget=None):
     return out
 
 
+# ------------------------------------------------------------------------------------------------- aliases (user snippets)
+# definitions of the user snippets used by the C01 / C02 alias cases, with the tree each one denotes ('K' = where the children written on
+# the alias go: the deepest last element)
+ALIAS_SNIPPETS = {'card': 'div>section', 'wrap': 'section>article>div', 'pair2': 'dl>dt+dd', 'solo': 'aside'}
+ALIAS_TREES = {'card': ('div', [('section', ['K'])]), 'wrap': ('section', [('article', [('div', ['K'])])]), 'pair2': ('dl', [('dt', []), ('dd', ['K'])]), 'solo': ('aside', ['K'])}
+
+
+def apply_alias(forest, table=ALIAS_TREES):
+    """an alias expands like its definition: what is written on the alias (attributes, text) goes to the top-level element of the
+    definition, its children into the deepest last element"""
+    def build(d, el, kids, top):
+        name, ch = d
+        node = {'name': name, 'mentions': list(el['mentions']) if top else [], 'text': el['text'] if top else None, 'slash': False, 'kids': []}
+        for c in ch:
+            if c == 'K': node['kids'] += kids
+            else: node['kids'].append(build(c, el, kids, False))
+        return node
+    out = []
+    for el in forest:
+        kids = apply_alias(el['kids'], table)
+        if el['name'] in table: out.append(build(table[el['name']], el, kids, True))
+        else: out.append(dict(el, kids=kids))
+    return out
+
+
 IMPLICIT = {'ul': 'li', 'ol': 'li', 'table': 'tr', 'tbody': 'tr', 'thead': 'tr', 'tfoot': 'tr', 'tr': 'td', 'select': 'option', 'optgroup': 'option'}
 
 
